@@ -62,6 +62,21 @@ def exhaustive_type_table(eng):
                     code = (1000 if vendor is None else 2000) + ti
                     for v in leafs:
                         cases.append(hist_line("g", ("NEW", 272, 4, 0x80, 1, 2), [("ADDAVP", code, vendor, fl, v)]))
+    # every command the library knows with every application, every flag nibble, ids at the edges
+    for ci, cmd in enumerate(gen.CMDS):
+        for ai, app in enumerate(gen.APPS):
+            fl = [0x80, 0, 0x40, 0xc0, 0x20, 0x10, 0xf0, 0x90][(ci + ai) % 8]
+            hbh, e2e = [(0, 0), (1, 0xffffffff), (0xffffffff, 1), (0x80000000, 0x7fffffff)][(ci * 6 + ai) % 4]
+            cases.append(hist_line("g", ("NEW", cmd, app, fl, hbh, e2e), [("ADDAVP", 1011, None, 0, ("L", ("oct", b"hdr")))] if (ci + ai) % 2 else []))
+    # Grouped AVPs nested 1 .. limit + 2 deep, built with the builder (what may be built may be encoded: the decoder's nesting
+    # limit is the decoder's)
+    grp = [d for d in eng.dicts["g"].live() if d["ty"] == "grp" and d["vendor"] is None][0]
+    leafdef = [d for d in eng.dicts["g"].live() if d["ty"] == "u32" and d["vendor"] is None and 1000 <= d["code"] < 1100][0]
+    for depth in list(range(1, 20, 3)) + list(range(28, (eng.lim or 32) + 3)):
+        e = ("E", leafdef["code"], None, 0x40, ("L", ("u32", depth)))
+        for _ in range(depth):
+            e = ("E", grp["code"], None, 0, ("GN", [e]))
+        cases.append(hist_line("g", ("NEW", 272, 4, 0x80, 1, 2), [("ADD", e)]))
     return cases
 
 
@@ -210,7 +225,14 @@ def check_C17(chk, tier, seed):
         for p in leaf_patterns(rng, n64, 64):
             cases.append(f"LEAFDEC {ty} 8 {xb(p.to_bytes(8, 'big'))}")
     # every seventh pattern once more through a reader that hands out one octet per read() call
-    cases += [c.replace("LEAFDEC ", "LEAFDECD ", 1) for c in cases[::7]]
+    base = list(cases)
+    cases += [c.replace("LEAFDEC ", "LEAFDECD ", 1) for c in base[::7]]
+    # ... every eleventh through a reader whose read() is interrupted (ErrorKind::Interrupted) before every octet it hands out
+    cases += [c.replace("LEAFDEC ", "LEAFDECI ", 1) for c in base[3::11]]
+    # ... and every thirteenth again after somebody else's decode / encode, on another thread, went through a reader / writer that
+    # panicked inside read() / write(): nothing of that may be felt here
+    cases.append("POISON")
+    cases += base[5::13]
     # encode side on in-range values
     r = rng.fork("enc")
     for k in ("u32", "i32", "en", "f32", "time", "ip4", "u64", "i64", "f64"):
@@ -220,7 +242,11 @@ def check_C17(chk, tier, seed):
     for i, (c, im, mo) in enumerate(zip(cases, impl, model)):
         mobs, o = split_obs(mo)
         chk.case(c, True)
-        chk.count(("dribble:" if c.startswith("LEAFDECD") else "") + c.split()[1] if c.startswith("LEAFDEC") else "enc:" + c.split()[1])
+        if c == "POISON":
+            if im != "OK":
+                chk.violation("a decode / encode through a panicking reader / writer on another thread could not be contained: " + short(im, 200), dict(case=c, impl=short(im)))
+            continue
+        chk.count(("dribble:" if c.startswith("LEAFDECD") else "interrupted:" if c.startswith("LEAFDECI") else "") + c.split()[1] if c.startswith("LEAFDEC") else "enc:" + c.split()[1])
         chk.validated += 1
         ok = im == mobs
         if c.startswith("LEAFDEC") and ok:
@@ -341,6 +367,37 @@ def check_C02(chk, tier, seed):
             did = c.split()[1]
             stage2.append(f"X {did} {im[im.rindex(' ENC ') + 5:]}")
             idx.append(i)
+    # a message inside the round-trip domain (wire domain by the model's oracle, typed by its dictionary, depth within the
+    # limit) that the implementation builds but cannot encode never reaches stage 2: that is a failure of the round trip too
+    for i, (c, im, mo) in enumerate(zip(cases, impl, model)):
+        if im.startswith("R ok") and " ENC ERR" in im:
+            mobs, o = split_obs(mo)
+            try:
+                m1 = parse_result(im)["msg"]
+            except Exception:
+                continue
+            if o.get("WD") == "1" and typed_by(eng.dicts[c.split()[1]], m1) and msg_depth(m1) <= (lim or 0):
+                chk.violation("a message inside the round-trip domain could not be encoded (so decode(encode(m)) is not m)", dict(case=c, impl=short(im, 2000), model=short(mobs, 2000)))
+    # values above 1 MiB (the limit of the STREAM reader; decode_from takes what the 24-bit lengths can carry): built, encoded,
+    # decoded and compared by the implementation alone (the model's octet lists would take minutes)
+    octd = [d for d in eng.dicts["g"].live() if d["ty"] == "oct" and d["vendor"] is None and 1000 <= d["code"] < 1100][0]
+    utfd = [d for d in eng.dicts["g"].live() if d["ty"] == "utf" and d["vendor"] is None and 1000 <= d["code"] < 1100][0]
+    bigs = [hist_line("g", ("NEW", 272, 4, 0x80, 1, 2), [("ADDAVP", octd["code"], None, 0x40, ("L", ("octz", n)))]) for n in ([1048577, 3000001] if tier == "quick" else [1048577, 3000001, 16000000])]
+    bigs.append(hist_line("g", ("NEW", 272, 4, 0x80, 1, 2), [("ADDAVP", utfd["code"], None, 0x40, ("L", ("utf", b"a" * 1100000 + "\u00e9".encode())))]))
+    big1 = core.run_sharded([eng.harness, "codec"], eng.prelude, bigs, shards=len(bigs), timeout=600)
+    big_frames = [(b1[b1.rindex(" ENC ") + 5:].split()[0] if b1.startswith("R ok") and " ENC x" in b1 else None) for b1 in big1]
+    big2 = core.run_sharded([eng.harness, "codec"], eng.prelude, [f"X g {fx}" for fx in big_frames if fx], shards=len(bigs), timeout=600)
+    it2 = iter(big2)
+    for c, b1, fx in zip(bigs, big1, big_frames):
+        chk.case(short(c, 200), True)
+        chk.count("value-above-1MiB")
+        chk.validated += 1
+        b2 = next(it2) if fx else None
+        if fx is None or " ENC2DIFF " in b1:
+            chk.violation("a message holding one value above 1 MiB could not be built and encoded consistently", dict(case=short(c, 300), impl=short(b1, 300)))
+        elif not (b2.startswith("OK ") and msg_text(b2) == msg_text(b1) and b2[b2.rindex(" ENC "):] == b1[b1.rindex(" ENC "):]):
+            chk.violation("decode(encode(m)) differs from m for a message holding one value above 1 MiB (decode_from is not the stream reader: its limit is the 24-bit length)",
+                          dict(case=short(c, 300), original=short(b1, 300), decoded=short(b2, 300)))
     impl2, model2 = eng.run(stage2)
     # the encodings once more through the other readers (one octet per read() call; the frame sitting 1..5 octets into the
     # buffer): what comes back must not depend on how the reader hands the octets out
@@ -601,6 +658,9 @@ def check_C03(chk, tier, seed):
             fam.append((kind + "@offset", did, f, must))
             cases.append(f"XD {did} {xb(f)}")
             fam.append((kind + "@dribble", did, f, must))
+            if nvar % 3 == 0:
+                cases.append(f"XI {did} {xb(f)}")
+                fam.append((kind + "@interrupted", did, f, must))
             nvar += 1
     impl, model = eng.run(cases)
     # oracle: is the returned tree the one the octets denote, and what is its reference encoding
@@ -741,6 +801,12 @@ def check_C04(chk, tier, seed):
     fam.append(("many-members", "g", hdr(8 + nmem * len(member)) + gen.be(grp["code"], 4) + b"\0" + gen.be(8 + nmem * len(member), 3) + member * nmem, True))
     fam.append(("many-members", "g", hdr(nmem * len(member)) + member * nmem, True))
     cases = [f"X {did} {xb(f)}" for (_, did, f, _) in fam]
+    # decode_from on a reader that already stands at, or past, the end of what it holds (a second decode after the last frame;
+    # a caller that sought too far): an error, not a panic
+    for (kind, did, f, _) in [x for x in fam if x[0] in ("wellformed", "type-table")][:12]:
+        for k in (0, 1, 3, 4, 20, 1000, 1 << 31):
+            fam.append(("reader-past-its-end", did, b"", False))
+            cases.append(f"XP {did} {k} {xb(f)}")
     impl = core.run_sharded([eng.harness, "codec"], eng.prelude, cases, timeout=900)
     small = [i for i, (_, _, f, _) in enumerate(fam) if len(f) <= 200000]
     model = dict(zip(small, core.run_sharded([eng.runner], eng.prelude, [cases[i] for i in small], unlimited_stack=True, timeout=900)))
